@@ -2,10 +2,11 @@
 
    Case kinds (see harness/src/bin/c01.rs):
      R <type> <cell>              | <ser> <deser>    dynamic path: SerializedValues::add_value(&CqlValue) + Option<CqlValue>::deserialize
-     T <carrier> <type> <cell>    | <ser> <deser>    typed Rust carrier holding the same value
+     T <carrier> <type> <cell>    | <ser> <deser>    typed Rust carrier holding the same value (also against the typed model: ok tm)
      V <carrier> <elemtype> <dim> <cells(..)> | <ser> <deser>   Vec<Option<T>> / Vec<MaybeUnset<T>> bound to a vector
      Q <carrier> <elemtype> <cells(..)>       | <ser> <deser>   ... bound to a list
-     D <type> <hexbytes>          | <deser>          arbitrary bytes decoded as one [bytes] item
+     E <carrier> <type> <hexbytes> | <deser>         a typed carrier's OWN decoder on arbitrary bytes (against typed_read)
+     D <type> <hexbytes>          | <deser>          arbitrary bytes decoded as one [bytes] item (dynamic decoder)
      N u <hex> | N s <hex> | N d <hexbytes>   | ...  vint codec
    <ser>   = ok:<hexbytes> | err:<leaf kind>
    <deser> = ok:<cell> | err:<leaf kind> | -  *)
@@ -290,8 +291,9 @@ let s_typed_read k t (b : n list) : string =
 
 (* the TYPED model against the typed implementation, for a T case; None = agrees / not comparable *)
 let typed_compared = ref false
+let typed_partial = ref false      (* the decoded carrier value has no dynamic counterpart: bytes compared, decode not *)
 let typed_model_diff ~unordered carrier t c impl_ser impl_deser : string option =
-  typed_compared := false;
+  typed_compared := false; typed_partial := false;
   match carrier_of_name carrier with
   | None -> None
   | Some k ->
@@ -305,7 +307,8 @@ let typed_model_diff ~unordered carrier t c impl_ser impl_deser : string option 
          | Some hx when typed_check k t ->
            let mr = s_typed_read k t (bytes_of_hexstr hx) in
            let norm x = if unordered || sorting_carrier carrier then canon_result x else x in
-           if mr = "unembeddable" || norm mr = norm impl_deser then None else Some ("typed-model deser=" ^ mr)
+           if mr = "unembeddable" then (typed_partial := true; None)
+           else if norm mr = norm impl_deser then None else Some ("typed-model deser=" ^ mr)
          | _ -> None)
 
 (* ---------------------------------------------------------------- verdicts *)
@@ -350,9 +353,9 @@ let verdict_rt ?(carrier = "") ~(unordered : bool) t c impl_ser impl_deser =
   let agrees = order_ok && m_ser_s = impl_ser && norm m_deser_s = norm impl_deser in
   (* The known-finding tag is attached ONLY when the implementation shows exactly the behaviour the
      model has for this input: impl = model on bytes and on the decoded value; for a vector hole
-     the finding is the WRITER's (no encoding exists, yet bytes are produced), so equality of the
-     bytes with the model's suffices there (a typed decoder may read the malformed bytes
-     differently from the dynamic one).  Any other failure on an input that merely contains a
+     the finding is the WRITER's (no encoding exists, yet bytes are produced), so for TYPED carriers
+     equality of the bytes with the model's suffices (a typed decoder may read the malformed bytes
+     differently from the dynamic one); on the dynamic path the decoder is modelled and must agree too.  Any other failure on an input that merely contains a
      known-class sub-value is a plain viol. *)
   let agrees_ser = order_ok && m_ser_s = impl_ser in
   let cls = match c with CVal v -> known_class_of t v | _ -> None in
@@ -368,11 +371,11 @@ let verdict_rt ?(carrier = "") ~(unordered : bool) t c impl_ser impl_deser =
          (* the typed carrier's own model (Model/CqlTyped.v) against the typed implementation *)
          if carrier = "" then "ok"
          else match typed_model_diff ~unordered carrier t c impl_ser impl_deser with
-           | None -> if !typed_compared then "ok tm" else "ok"
+           | None -> if !typed_partial then "ok tm-partial" else if !typed_compared then "ok tm" else "ok"
            | Some d -> "diff " ^ d)
   | Some (kind, why) ->
     (match cls with
-     | Some k when agrees || (kind = NotEncoding && agrees_ser && k = KA_vector_null_element) ->
+     | Some k when agrees || (carrier <> "" && kind = NotEncoding && agrees_ser && k = KA_vector_null_element) ->
        "viol class=" ^ class_tag k ^ " " ^ why
      | _ -> "viol " ^ why ^ " ; model=" ^ m_ser_s ^ " " ^ m_deser_s)
 
